@@ -400,3 +400,311 @@ func (m *Machine) PtrEq(a, b Ptr) T {
 func single(o *Object, off int, c *sym.Ctx) Ptr {
 	return Ptr{[]PtrAlt{{c.True, o, off}}}
 }
+
+// ---- simplification of values under a path guard
+
+type litSet struct {
+	ids map[int]bool
+	eq  map[int]*sym.Term // variable id -> constant it equals
+}
+
+// lits returns the cases of g: g is equivalent to the disjunction of the returned literal sets
+// (one level of Or inside the top-level And is expanded, up to 16 cases).
+func (m *Machine) lits(g T) litSets {
+	var conj []T
+	if g.Op == sym.OpAnd {
+		conj = g.Args
+	} else {
+		conj = []T{g}
+	}
+	cases := [][]T{nil}
+	var common []T
+	for _, a := range conj {
+		if a.Op == sym.OpOr && len(cases)*len(a.Args) <= 16 {
+			var nc [][]T
+			for _, cs := range cases {
+				for _, d := range a.Args {
+					x := append(append([]T(nil), cs...), d)
+					nc = append(nc, x)
+				}
+			}
+			cases = nc
+			continue
+		}
+		common = append(common, a)
+	}
+	var out litSets
+	for _, cs := range cases {
+		out = append(out, m.lits1(append(append([]T(nil), common...), cs...)))
+	}
+	return out
+}
+
+type litSets []litSet
+
+func (m *Machine) lits1(conj []T) litSet {
+	ls := litSet{ids: map[int]bool{}, eq: map[int]*sym.Term{}}
+	var add func(a T)
+	add = func(a T) {
+		if a.Op == sym.OpAnd {
+			for _, x := range a.Args {
+				add(x)
+			}
+			return
+		}
+		ls.ids[a.ID] = true
+		if a.Op == sym.OpEq {
+			x, k := a.Args[0], a.Args[1]
+			if x.Op == sym.OpConst {
+				x, k = k, x
+			}
+			if k.Op == sym.OpConst && x.Op == sym.OpVar {
+				ls.eq[x.ID] = k
+			}
+		}
+	}
+	for _, a := range conj {
+		add(a)
+	}
+	return ls
+}
+
+// eqRefuted: a is (x = k) and the set contains (x = k') with k' != k.
+func (ls litSet) eqRefuted(a T) bool {
+	if a.Op != sym.OpEq {
+		return false
+	}
+	x, k := a.Args[0], a.Args[1]
+	if x.Op == sym.OpConst {
+		x, k = k, x
+	}
+	if k.Op != sym.OpConst || x.Op != sym.OpVar {
+		return false
+	}
+	if k2, ok := ls.eq[x.ID]; ok && k2 != k {
+		return true
+	}
+	return false
+}
+
+// holds over all cases of the guard.
+func (m *Machine) holds(lss litSets, cond T) int {
+	if cond.IsTrue() {
+		return 1
+	}
+	if cond.IsFalse() {
+		return -1
+	}
+	res := 0
+	for i, ls := range lss {
+		r := m.holds1(ls, cond)
+		if r == 0 {
+			return 0
+		}
+		if i == 0 {
+			res = r
+		} else if r != res {
+			return 0
+		}
+	}
+	return res
+}
+
+// holds1: +1 if cond is implied by the literal set, -1 if refuted, 0 unknown (syntactic, one level).
+func (m *Machine) holds1(ls litSet, cond T) int {
+	m.holdDepth++
+	defer func() { m.holdDepth-- }()
+	if m.holdDepth > 4 {
+		if ls.ids[cond.ID] {
+			return 1
+		}
+		return 0
+	}
+	if cond.IsTrue() {
+		return 1
+	}
+	if cond.IsFalse() {
+		return -1
+	}
+	if ls.ids[cond.ID] {
+		return 1
+	}
+	if ls.eqRefuted(cond) {
+		return -1
+	}
+	if cond.Op == sym.OpNot {
+		switch m.holds1(ls, cond.Args[0]) {
+		case 1:
+			return -1
+		case -1:
+			return 1
+		}
+		return 0
+	}
+	if n := m.C.Not(cond); ls.ids[n.ID] {
+		return -1
+	}
+	if cond.Op == sym.OpAnd {
+		all := true
+		for _, a := range cond.Args {
+			switch m.holdsLit(ls, a) {
+			case -1:
+				return -1
+			case 0:
+				all = false
+			}
+		}
+		if all {
+			return 1
+		}
+	}
+	if cond.Op == sym.OpOr {
+		none := true
+		for _, a := range cond.Args {
+			switch m.holdsLit(ls, a) {
+			case 1:
+				return 1
+			case 0:
+				none = false
+			}
+		}
+		if none {
+			return -1
+		}
+	}
+	return 0
+}
+
+func (m *Machine) holdsLit(ls litSet, a T) int {
+	if ls.ids[a.ID] {
+		return 1
+	}
+	if ls.eqRefuted(a) {
+		return -1
+	}
+	if a.Op == sym.OpNot {
+		if ls.ids[a.Args[0].ID] {
+			return -1
+		}
+		if ls.eqRefuted(a.Args[0]) {
+			return 1
+		}
+		if a.Args[0].Op == sym.OpAnd || a.Args[0].Op == sym.OpOr {
+			return -m.holds1(ls, a.Args[0])
+		}
+		return 0
+	}
+	if n := m.C.Not(a); ls.ids[n.ID] {
+		return -1
+	}
+	if a.Op == sym.OpAnd || a.Op == sym.OpOr {
+		return m.holds1(ls, a)
+	}
+	return 0
+}
+
+func (m *Machine) restrictT(ls litSets, t T) T {
+	for i := 0; i < 64 && t.Op == sym.OpIte; i++ {
+		switch m.holds(ls, t.Args[0]) {
+		case 1:
+			t = t.Args[1]
+		case -1:
+			t = t.Args[2]
+		default:
+			return t
+		}
+	}
+	if t.Sort == sym.SBool && t.Op != sym.OpConst {
+		switch m.holds(ls, t) {
+		case 1:
+			return m.C.True
+		case -1:
+			return m.C.False
+		}
+	}
+	return t
+}
+
+// Restrict simplifies v assuming the path guard g (syntactic, sound: only uses literals of g).
+func (m *Machine) Restrict(g T, v Value) Value {
+	if g.IsTrue() || v == nil {
+		return v
+	}
+	return m.restrict(m.lits(g), v)
+}
+
+func (m *Machine) restrictPtr(ls litSets, p Ptr) Ptr {
+	changed := false
+	out := make([]PtrAlt, 0, len(p.Alts))
+	for _, a := range p.Alts {
+		switch m.holds(ls, a.G) {
+		case 1:
+			if !a.G.IsTrue() {
+				changed = true
+			}
+			out = append(out, PtrAlt{m.C.True, a.Obj, a.Off})
+		case -1:
+			changed = true
+		default:
+			out = append(out, a)
+		}
+	}
+	if !changed {
+		return p
+	}
+	return Ptr{out}
+}
+
+func (m *Machine) restrict(ls litSets, v Value) Value {
+	switch x := v.(type) {
+	case T:
+		return m.restrictT(ls, x)
+	case Ptr:
+		return m.restrictPtr(ls, x)
+	case SliceV:
+		return SliceV{m.restrictPtr(ls, x.Base), m.restrictT(ls, x.Len), m.restrictT(ls, x.Cap)}
+	case Text:
+		return Text{m.restrictT(ls, x.W), m.restrictT(ls, x.N), m.restrictT(ls, x.NL), m.restrictT(ls, x.CUU), m.restrictT(ls, x.ID), x.Lit}
+	case StructV:
+		out := make([]Value, len(x.F))
+		for i := range x.F {
+			out[i] = m.restrict(ls, x.F[i])
+		}
+		return StructV{out}
+	case ArrayV:
+		out := make([]Value, len(x.E))
+		for i := range x.E {
+			out[i] = m.restrict(ls, x.E[i])
+		}
+		return ArrayV{out}
+	case Iface:
+		out := make([]IfaceAlt, 0, len(x.Alts))
+		for _, a := range x.Alts {
+			switch m.holds(ls, a.G) {
+			case 1:
+				out = append(out, IfaceAlt{m.C.True, a.T, a.S, m.restrict(ls, a.V)})
+			case -1:
+			default:
+				out = append(out, IfaceAlt{a.G, a.T, a.S, a.V})
+			}
+		}
+		return Iface{out}
+	case FuncV:
+		out := make([]FuncAlt, 0, len(x.Alts))
+		for _, a := range x.Alts {
+			switch m.holds(ls, a.G) {
+			case 1:
+				nb := make([]Value, len(a.Binds))
+				for i := range a.Binds {
+					nb[i] = m.restrict(ls, a.Binds[i])
+				}
+				out = append(out, FuncAlt{m.C.True, a.Fn, nb, a.Builtin})
+			case -1:
+			default:
+				out = append(out, a)
+			}
+		}
+		return FuncV{out}
+	}
+	return v
+}
